@@ -23,6 +23,8 @@ class SymVec(AbsVal):
             return 1
         if name in ("astype",):
             return Builtin(name, lambda it, a, k: self)
+        if name == "dtype":
+            return ("dtype-of", self.name)  # the element type of the samples is whatever the caller supplied
         raise AnalysisError(f"SymVec attribute {name}")
 
     def av_len(self):
